@@ -81,6 +81,41 @@ Theorem C18_str_total :
 Proof. exact df_str_total. Qed.
 Print Assumptions C18_str_total.
 
+(* ---------------- (b') subclass instances (round 4) ---------------- *)
+
+(* A cell that is an instance of a proper SUBCLASS of a listed kind - numpy.ma.MaskedArray / numpy.matrix /
+   numpy.recarray / a user subclass of ndarray, an int / float / str / bytes / Decimal / date / datetime /
+   timedelta / dict / list / tuple subclass (IntEnum, OrderedDict, namedtuple ...) - is [VSub v], v describing
+   it as a base-class instance of equal content.  Every observer of a cell the renderers use gives it what
+   it gives the base-class instance: every class test of ascii_table is an isinstance test. *)
+Theorem C18_subclass_cell_as_base :
+  forall (v : value) (s : option text) (w : nat),
+  is_none (mkcell (VSub v) s) = is_none (mkcell v s) /\
+  cell_str (mkcell (VSub v) s) = cell_str (mkcell v s) /\
+  type_formatter (mkcell (VSub v) s) w = type_formatter (mkcell v s) w.
+Proof. exact subclass_cell_as_base. Qed.
+Print Assumptions C18_subclass_cell_as_base.
+
+(* ... and so do the three renderings of any frame, for every configuration, eager and lazy: removing
+   every subclass mark of a frame (arbitrarily nested marks, any cell, ragged or not) changes no rendering.
+   With C18_display_total / C18_str_total: a frame holding such instances renders, and renders as the
+   frame of base-class instances does. *)
+Theorem C18_subclass_frame_as_base :
+  forall (f : frame) (cfg : config) (cols lim m : nat),
+  ascii_table (erase_frame f) cfg = ascii_table f cfg /\
+  df_str (erase_frame f) cols = df_str f cols /\
+  markdown (erase_frame f) lim m = markdown f lim m.
+Proof. exact subclass_frame_as_base. Qed.
+Print Assumptions C18_subclass_frame_as_base.
+
+(* an ndarray subclass instance of any content and dtype is formatted as its tolist() is - the scalar
+   branches int(value) / float(value) / bool(value) of numpy_type_mapper are never taken for it *)
+Theorem C18_ndarray_subclass_as_tolist :
+  forall (x : value) (s : option text) (w : nat),
+  type_formatter (mkcell (VSub (VNpArray x)) s) w = fmt_value (unsub x) w.
+Proof. exact subarray_as_tolist. Qed.
+Print Assumptions C18_ndarray_subclass_as_tolist.
+
 (* ---------------- (c) equal printed width ---------------- *)
 
 (* Full statement: for printable-ASCII names, type names and cells, all box lines of the
@@ -160,3 +195,11 @@ Proof. exact strict_decode_raises. Qed.
 (* well-formed markup exists with tokens inside: a coloured cell *)
 Example C18_nonvacuous_wf : wf (tok "INTEGER" ++ T "  42" ++ OFF) 4.
 Proof. apply wfb_wf. vm_compute. reflexivity. Qed.
+
+(* round 4: a masked array cell [1 -- 3] renders as the list its tolist() is, and the mark is a real one *)
+Example C18_masked_array_renders :
+  type_formatter masked_cell 18
+  = Ok (tok "PUNC" ++ T "['" ++ tok "VALUE" ++ T "1" ++ tok "PUNC" ++ T "', '" ++ tok "VALUE" ++ T "None" ++ tok "PUNC" ++ T "', '"
+        ++ tok "VALUE" ++ T "3" ++ tok "PUNC" ++ T "']" ++ OFF)
+  /\ erase_cell masked_cell <> masked_cell.
+Proof. exact masked_array_renders. Qed.
